@@ -6,6 +6,10 @@ b  every returned state has its section coordinate zeroed
 c  points, labels and states describe the same plane
 d  crossing test (sign abstraction) and Hermite refinement pairing; slot tables
 e  seeds are lifted with lift_plane_point on the problem's energy and section
+
+b (added)  iterates fed back as seeds lie exactly on the section
+c (added)  the map service generates the requested section whatever the generator was configured for before (model generator)
+d (added)  the direction quantity does not vanish on the section at quadratic order
 """
 from __future__ import annotations
 
